@@ -32,7 +32,7 @@ func (e *Engine) effectInstrs(fn *ssa.Function) []Atom {
 			}
 		}
 		for _, c := range Calls(f) {
-			callee := c.Common().StaticCallee()
+			callee := Devirt(c.Common())
 			if callee == nil || callee.Blocks == nil || callee.Pkg == nil || !smPkgs[callee.Pkg.Pkg.Path()] || e.isGenerated(callee.Pos()) {
 				continue
 			}
